@@ -7,6 +7,7 @@ function, evaluated exhaustively over a stated finite domain -- bounded, never c
 import itertools
 import z3
 from ..core import Ob, native, guard
+from ..sym import OutOfReach
 
 LEVEL = "other"
 MANIFEST = {
@@ -31,6 +32,18 @@ G3 = ["B_d", "C2^d", "<r90> (identity last)", "<flip> (identity last)"]
 def jobs(tier):
     q = tier == "quick"
     out = [("gvc.props.c03", "ob_rescaling", dict(D=D)) for D in [2, 3]] + [("gvc.props.c03", "ob_assembly", dict(D=2))]
+    # the generator's core for all M (deductive): which (group, type) combinations
+    ga2 = [("B_d", 0, 0), ("B_d", 0, 1), ("B_d", 1, 0), ("B_d", 1, 1), ("rotations", 1, 0), ("C2^d", 1, 1), ("<r90> (identity last)", 0, 0), ("<flip> (identity last)", 1, 0)]
+    if not q:
+        ga2 += [("B_d", 2, 0), ("B_d reversed", 1, 1), ("rotations", 2, 1)]
+    for (g, k, p) in ga2:
+        for cl in ["defn", "invariant", "orbit"]:
+            if cl == "invariant" and k >= 2:
+                continue      # follows from defn + closure (C02 composition law); the direct proof exceeds the budget for k >= 2
+            out.append(("gvc.props.c03", "ob_group_average", dict(D=2, k=k, p=p, gname=g, clauses=[cl])))
+    for (g, k, p) in [("C2^d", 0, 0), ("C2^d", 1, 0), ("<r90> (identity last)", 0, 1)] + ([] if q else [("C2^d", 1, 1), ("rotations", 0, 0)]):
+        for cl in ["defn", "invariant", "orbit"]:
+            out.append(("gvc.props.c03", "ob_group_average", dict(D=3, k=k, p=p, gname=g, clauses=[cl])))
     for g in G2:
         out.append(("gvc.props.c03", "ob_chunk", dict(D=2, gname=g, Ms=[1, 2, 3, 4] if q else [1, 2, 3, 4, 5], ks=[0, 1, 2, 3] if q else [0, 1, 2, 3, 4])))
     for g in G3:
@@ -175,3 +188,177 @@ def ob_assembly(D):
                     return st
         return "proved", f"{sum(counts.values())} filters of {len(exp_keys)} types", None
     return [guard(f"C03/get_invariant_filters(_dict,_list)/D={D}/ensures:every-family-under-its-own-type,nothing-lost", "ensures", body, dict(D=D, M=M, counts={str(k_): v for k_, v in counts.items()}))]
+
+
+# ------------------------------------------------------------------------------------------------------------------
+# the generator's core, for ALL filter sides M at once: the matrix handed to the row selection is the group average of the basis
+
+class _Cut(Exception):
+    def __init__(self, v):
+        self.v = v
+
+
+def _group(D, gname):
+    import numpy as np
+    from ..specs.act import det_of
+    from .common import geom
+    ops = [np.asarray(g) for g in geom().make_all_operators(D)]
+    I = np.eye(D, dtype=int)
+    if gname == "B_d":
+        return ops
+    if gname == "B_d reversed":
+        return list(reversed(ops))
+    if gname == "rotations":
+        return [g for g in ops if det_of(g) == 1]
+    if gname == "C2^d":
+        return [np.asarray(g) for g in geom().make_C2_group(D)]
+    if gname == "<r90> (identity last)":
+        r = np.eye(D, dtype=int)
+        r[:2, :2] = [[0, -1], [1, 0]]
+        return [r, r @ r, r @ r @ r, I]
+    if gname == "<flip> (identity last)":
+        f = np.eye(D, dtype=int)
+        f[0, 0] = -1
+        return [f, I]
+    raise ValueError(gname)
+
+
+def _prefix(D, k, p, ops, M):
+    """run the REAL get_unique_invariant_filters with a symbolic side M up to the first operation of the row selection
+    (`jnp.abs(filter_matrix)`, the cut point) and return the filter matrix it has built, reshaped to (n,) + (M,)*D + (D,)*k"""
+    from ..loader import load
+    C = load()["ginjax.geometric.common"]
+    jnp_ = C.__dict__["jnp"]
+    saved = jnp_.abs
+
+    def cut_abs(x, *a, **kw):
+        raise _Cut(x)
+    jnp_.abs = cut_abs
+    C.basis_cache.clear()
+    try:
+        try:
+            C.get_unique_invariant_filters(M, k, p, D, ops, "one")
+        except _Cut as c:
+            fm = c.v
+        else:
+            raise OutOfReach("the generator returned without reaching the row selection (cut point jnp.abs(filter_matrix))")
+    finally:
+        jnp_.abs = saved
+        C.basis_cache.clear()
+    from .. import arr
+    if not isinstance(fm, arr.SArray) or fm.ndim != 2:
+        raise OutOfReach("cut point reached with something that is not the 2-d filter matrix")
+    return fm.reshape((fm.shape[0],) + (M,) * D + (D,) * k)
+
+
+def ob_group_average(D, k, p, gname, clauses=("defn", "invariant", "orbit")):
+    """For ALL filter sides M (symbolic; odd and even in one VC) and a generic basis element b:
+       defn       row b of the matrix the generator builds == sum_{g in G} g.e_b  (act_spec; e_b the one-hot tensor image)
+       invariant  h.(row b) == row b for every h in G   (the property's invariance clause, before the float post-processing)
+       orbit      row b [c] > 0  ==> row c == row b,  row b [c] < 0  ==> row c == -row b   (rows that overlap are equal up to
+                  sign: after sign normalisation and np.unique the surviving rows have pairwise disjoint supports, hence are
+                  linearly independent; their span is the image of the averaging operator = the invariant subspace)"""
+    import numpy as np
+    from .. import sym, arr
+    from ..sym import zi
+    from ..arr import SArray
+    from ..specs.act import act_sym
+    from .common import World
+    ops = _group(D, gname)
+    obs = []
+    structure = dict(D=D, k=k, parity=p, group=gname, M="symbolic (all sides)")
+    base = f"C03/get_unique_invariant_filters[group-average]/D={D},k={k},p={p},G={gname}"
+
+    def setup():
+        sym.reset(todo=[])
+        arr.ENUM_SMALL[0] = 3
+        W = World(1)
+        M = W.spatial[0].ext
+        sym.CTX.path = list(W.pre)
+        FM = _prefix(D, k, p, ops, M)
+        return W, M, FM
+
+    def onehot(rowd, b, dims):
+        fs = arr.factors(rowd)
+        bs = list(b) if isinstance(rowd, arr.Prod) else [b]
+
+        def elem(j):
+            cond = z3.simplify(z3.And([zi(arr.to_flat(f, bi)) == zi(arr.to_flat(d, ji)) for f, bi, d, ji in zip(fs, bs, dims, j)]))
+            if z3.is_false(cond):
+                return 0
+            if z3.is_true(cond):
+                return 1
+            return arr.t_cond(cond, 1)
+        return SArray(list(dims), elem)
+
+    if "defn" in clauses:
+        def body_defn():
+            W, M, FM = setup()
+
+            def spec_elem(idx):
+                E = onehot(FM.dims[0], idx[0], FM.dims[1:])
+                tot = 0
+                for g in ops:
+                    tot = arr.t_bin("add", tot, act_sym(E, D, k, p, g).elem(idx[1:]))
+                return tot
+            return arr.compare(FM, SArray(FM.dims, spec_elem), "filter matrix row b vs sum_g g.e_b")
+        o = guard(base + "/ensures:rows-are-group-averages-of-the-basis", "ensures", body_defn, structure)
+        o["replay"] = dict(scenario="chunk", D=D, gname=gname, Ms=[2, 3, 4], ks=[k])
+        obs.append(o)
+
+        def canary():
+            W, M, FM = setup()
+            gs = ops[:-1] if len(ops) > 1 else []
+
+            def spec_elem(idx):
+                E = onehot(FM.dims[0], idx[0], FM.dims[1:])
+                tot = 0
+                for g in gs:                                  # one group element forgotten: must be refuted
+                    tot = arr.t_bin("add", tot, act_sym(E, D, k, p, g).elem(idx[1:]))
+                return tot
+            return arr.compare(FM, SArray(FM.dims, spec_elem), "wrong average")
+        if k == 0 and p == 0:
+            obs.append(guard(base + "/canary:one-element-forgotten", "canary", canary, structure))
+    if "invariant" in clauses:
+        def body_inv():
+            W, M, FM = setup()
+            n = 0
+            for hi, h in enumerate(ops):
+                def inv_elem(idx, h=h):
+                    R = SArray(FM.dims[1:], lambda j: FM.elem([idx[0]] + list(j)))
+                    return act_sym(R, D, k, p, h).elem(idx[1:])
+                r = arr.compare(SArray(FM.dims, inv_elem), FM, f"h#{hi}.(row b) vs row b")
+                if r[0] != "proved":
+                    return r
+                n += 1
+            return "proved", f"every row fixed by each of the {n} listed operators, all M", None
+        o = guard(base + "/ensures:every-row-invariant", "ensures", body_inv, structure)
+        o["replay"] = dict(scenario="chunk", D=D, gname=gname, Ms=[2, 3, 4], ks=[k])
+        obs.append(o)
+    if "orbit" in clauses:
+        def body_orbit():
+            W, M, FM = setup()
+            rowd = FM.dims[0]
+            cold = FM.dims[1:]
+            n = 0
+            for b, hb in arr.fresh_cases(rowd, "b"):
+                for c, hc in arr.fresh_cases(rowd, "c"):
+                    cs = list(c) if isinstance(rowd, arr.Prod) else [c]
+                    for x, hx in arr.fresh_cases(rowd, "x"):
+                        xs = list(x) if isinstance(rowd, arr.Prod) else [x]
+                        with sym.scope(hb + hc + hx):
+                            bc = arr.t_z3(FM.elem([b] + cs), True)
+                            bx = arr.t_z3(FM.elem([b] + xs), True)
+                            cx = arr.t_z3(FM.elem([c] + xs), True)
+                            goal = z3.And(z3.Implies(bc > 0, cx == bx), z3.Implies(bc < 0, cx == -bx))
+                            st, m = sym.prove_goal(goal)
+                            n += 1
+                            if st != "proved":
+                                return st, f"rows b={b}, c={c} overlap (row b is non-zero at c) but are not equal up to the sign of that entry, at x={x}", m
+            return "proved", f"{n} index classes: overlapping rows are equal up to sign, all M", None
+        o = guard(base + "/ensures:overlapping-rows-equal-up-to-sign", "ensures", body_orbit, structure)
+        o["replay"] = dict(scenario="chunk", D=D, gname=gname, Ms=[2, 3, 4], ks=[k])
+        obs.append(o)
+    from .common import cover
+    obs.append(cover(base + "/cover:pre", World(1).pre, structure))
+    return obs
